@@ -2,7 +2,6 @@
 void w_lpmod(PARAMS)
 REQ_STATE
 REQ_CONSISTENT
-REQ_INFTY
 __CPROVER_requires(n == DIM)
 __CPROVER_requires(!INR(g_k, NTYPES) || v_old == TYPES[g_k])
 __CPROVER_requires(!INR(g_k, NTYPES) || !AUTO || (FINITE(vec1[g_k]) && FINITE(vec2[g_k]) && v_exp == RT_Q(TORAT(vec1[g_k]), TORAT(vec2[g_k]))))
